@@ -210,6 +210,31 @@ func genHostileFrame(t *rapid.T) (frame []byte, kind string) {
 			}
 		}
 		return g, "lenfield/" + lf.Kind.String()
+	case k < 63: // a property that MQTT defines, planted in a packet where it is not allowed
+		m, _, _, tree := genValidFrame(t, false)
+		secs := tree.PropSections()
+		if len(secs) == 0 {
+			// short form without property section: use the full form
+			tree = ref.Tree(&m, ref.Style{Form: 2})
+			secs = tree.PropSections()
+		}
+		if len(secs) == 0 {
+			f, _ := tree.Bytes()
+			return f, "valid"
+		}
+		sec := secs[rapid.IntRange(0, len(secs)-1).Draw(t, "section")]
+		n := rapid.IntRange(1, 3).Draw(t, "nplanted")
+		for i := 0; i < n; i++ {
+			id := rapid.SampledFrom(ref.DefinedPropIDs()).Draw(t, "plantid")
+			if rapid.IntRange(0, 2).Draw(t, "plantsubid") == 0 {
+				id = 0x0b
+			}
+			node := ref.MakeProp(id, rapid.Uint32().Draw(t, "plantseed"))
+			pos := rapid.IntRange(0, len(sec.Kids)).Draw(t, "plantpos")
+			sec.Kids = append(append(append([]*ref.Node{}, sec.Kids[:pos]...), node), sec.Kids[pos:]...)
+		}
+		f, _ := tree.Bytes()
+		return f, "misplaced-property"
 	case k < 70: // (iv) every type nibble on a body valid for another type
 		_, f, _, _ := genValidFrame(t, false)
 		g := append([]byte(nil), f...)
